@@ -35,6 +35,13 @@ CLAIMED["C04"] = {
     "technique": "deterministic simulation: seeded session search with simulated/adversarial RNG seam and configuration sweep over sampling regimes, refinement against a state-vector model",
 }
 
+CLAIMED["C15"] = {
+    "text": "Seeded search over sessions of estimate / exact / bind steps: task lists of length 0-8 with every ordering of measurable, constant-operator (single term, unsimplified sum, empty sum) and zero-shot tasks are estimated through runner peers that over-deliver, fail on schedule, sit behind the tracker (fault-injecting disk) or implement only the bare protocol; each measurable task prepares its own basis state so results are attributable to their index, and the peer's request ledger (which circuits, which order, which shot counts, no call when nothing is measurable) is checked. Exact values are compared with the dense quadratic form, per-task binding with each task's own map. Evidence over sampled task lists, not proof.",
+    "design_ref": "DESIGN.md §3 C15",
+    "note": "Trusted: per-index expectation table (coefficient x Z-eigenvalue of the prepared basis state), dense Pauli reference, the request-ledger spy. Stub: ShotBackend, TaggedRunner, SimFS, SimRNG. Real: estimation module, EstimationTask, Measurements.get_expectation_values, base-class batch fan-out, SymbolicSimulator, tracker.",
+    "technique": "deterministic simulation: seeded search over request/response histories through fake runner peers (over-delivery, failure, tracker + disk faults) with an ordering/attribution oracle",
+}
+
 PENDING = {pid: "applicable (DESIGN.md §3) but its check is not built yet at this commit; not claimed until it is" for pid in
            ["C01", "C04", "C05", "C11", "C13", "C14", "C15", "C17", "C20"] if pid not in CLAIMED}
 
